@@ -665,6 +665,18 @@ func (m *Machine) builtinExternal(fn *ssa.Function, args []Value) (Value, bool) 
 		"(*sync.RWMutex).RLock", "(*sync.RWMutex).RUnlock", "(*sync.WaitGroup).Add", "(*sync.WaitGroup).Done", "(*sync.WaitGroup).Wait":
 		// single abstract thread: locks are no-ops for the value semantics analysed here
 		return nil, true
+	case "math.Frexp":
+		// x = frac · 2^exp with an unknown integer exponent
+		ex := sym.PAtom(m.FreshSym("frexp"))
+		x := args[0].(FloatV).E
+		return TupleV{[]Value{FloatV{sym.Mul(x, sym.PowE(sym.NumI(2), sym.Neg(sym.PolyE(ex))))}, IntV{P: ex}}}, true
+	case "math.Ldexp":
+		if e, ok := args[1].(IntV); ok {
+			return FloatV{sym.Mul(args[0].(FloatV).E, sym.PowE(sym.NumI(2), sym.PolyE(e.P)))}, true
+		}
+	case "runtime.GOMAXPROCS", "runtime.NumCPU":
+		// one machine configuration: four processors
+		return IntV{P: sym.PInt(4)}, true
 	case "math.Inf":
 		s := args[0].(IntV)
 		if c, ok := s.P.Const(); ok {
